@@ -1,0 +1,31 @@
+//go:build verif
+
+// Contracts for the capacity-trimming half of DecodeResult.Close (C14; comment-only).  The
+// invariant drShallow is what close(), Range, GetFieldData and NestedResult(s) rely on when a
+// pooled result is used again.
+
+package lazyproto
+
+//@ func (fd *FieldData) cap() (c int)
+//@   nilable
+//@   ensures implies(fd == nil, c == 0)
+
+//@ func (fd *FieldData) trunc(n int)
+//@   nilable
+//@   ensures implies(fd != nil && n >= 0 && old(cap(fd.data)) > n, len(fd.data) == 0 && cap(fd.data) == n)
+//@   ensures implies(fd != nil && !(old(cap(fd.data)) > n) && n >= 0, len(fd.data) == old(len(fd.data)))
+//@   modifies *fd
+
+//@ func (r *DecodeResult) cap() (c int)
+//@   nilable
+//@   requires r == nil || flatOK(r)
+//@   ensures  c >= 0
+//@   loop 1: locals c int
+//@   loop 1: invariant c >= 0 && flatOK(r)
+
+//@ func (r *DecodeResult) trunc(n int)
+//@   nilable
+//@   requires r == nil || drShallow(r)
+//@   ensures  r == nil || drShallow(r)
+//@   noframe
+//@   loop 1: invariant flatOK(r) && closersOK(r)
